@@ -22,7 +22,7 @@ func init() {
 		Run: func(c *Ctx) {
 			c.Do("C17.a", "L10 try-lock hand-off re-checks", 3, func() { clTryLockRecheck(c) })
 			c.Do("C17.b", "L2 cleanup walks from the front", 5, func() { clCleanupOrder(c) })
-			c.Do("C17.c", "L2 session termination feeds the cleanup and the free workers", 6, func() { clTerminateOnce(c); clFreeFeed(c); clStoreCursorsClosed(c) })
+			c.Do("C17.c", "L2 session termination feeds the cleanup and the free workers", 6, func() { clTerminateOnce(c); clFreeFeed(c); clStoreCursorsClosed(c); clSkiplistCursorSession(c) })
 		},
 	})
 }
